@@ -92,6 +92,20 @@ class MPUChunk:
         # if supplying data must also supply observed
         assert data is None or (observed is not None and len(observed) > 0)
 
+    def _clone(self) -> "MPUChunk":
+        # Tasks work on copies: inputs live in the graph (or on another worker) and
+        # have to stay as they were for the task to be re-runnable.
+        return MPUChunk(
+            self.nextPartId,
+            self.write_credits,
+            bytearray(self.data) if self.observed else None,
+            bytearray(self.left_data),
+            list(self.parts),
+            list(self.observed) if self.observed else None,
+            self.is_final,
+            self.lhs_keep,
+        )
+
     def __dask_tokenize__(self):
         return (
             "MPUChunk",
@@ -142,8 +156,8 @@ class MPUChunk:
                 lhs.nextPartId,
                 lhs.write_credits + rhs.write_credits,
                 lhs.data + rhs.data,
-                lhs.left_data,
-                lhs.parts,
+                bytearray(lhs.left_data),
+                list(lhs.parts),
                 lhs.observed + rhs.observed,
                 rhs.is_final,
                 lhs.lhs_keep,
@@ -151,6 +165,7 @@ class MPUChunk:
 
         # Flush `lhs.data + rhs.left_data` if we can
         #  or else move it into .left_data
+        lhs = lhs._clone()
         lhs.flush_rhs(write, rhs.left_data)
 
         return MPUChunk(
@@ -386,6 +401,17 @@ def mpu_write(
         min_part = write.min_part
         lhs_keep = write.min_write_sz
 
+    # part ids are handed out up front, ``writes_per_chunk`` to every partition
+    if write is not None:
+        nparts_total = sum(ch.npartitions for ch in chunks)
+        writes_per_chunk = min(
+            writes_per_chunk, (write.max_part - min_part) // max(nparts_total, 1)
+        )
+        if writes_per_chunk < 1:
+            raise ValueError(
+                f"Too many partitions: {nparts_total}, writer accepts parts {min_part}..{write.max_part}"
+            )
+
     partId = min_part + 1
     dss: list["dask.bag.Item"] = []
     for idx, ch in enumerate(chunks):
@@ -410,7 +436,10 @@ def mpu_write(
             spill_sz=spill_sz,
         )
 
-    tk = tokenize(write, mk_header, mk_footer, user_kw, spill_sz)
+    # what gets written is part of the identity of the task
+    tk = tokenize(
+        data_substream, write, mk_header, mk_footer, user_kw, spill_sz, writes_per_chunk
+    )
     name = f"{dask_name_prefix}-{tk}"
 
     return delayed(_finalizer_dask_op, name=name, pure=True)(
@@ -446,6 +475,7 @@ def _mpu_append_chunks_op(
 ):
     # expect 1 MPUChunk per partition
     (mpu,) = mpus
+    mpu = mpu._clone()
     for chunk in chunks:
         data, chunk_id = chunk
         mpu.append(data, chunk_id)
